@@ -132,12 +132,16 @@ def wordsAux : List Char → List Char → List (List Char) → List (List Char)
     if isWs c then wordsAux r [] (if cur.isEmpty then acc else cur.reverse :: acc)
     else wordsAux r (c :: cur) acc
 
-/-- the text of a comment up to layout: markers (`//`, `#`, `/*`, `*/`) removed, split on white
-    space, words made of `*` only (doc-comment gutters) dropped -/
+/-- the text of a comment up to layout: the markers of ITS kind (`/*` and `*/`, or `#`, or `//`)
+    removed - one marker, not every marker-like prefix: `#//x` is a hash comment with the text
+    `//x`, `/*#x*/` a block comment with the text `#x` -, split on white space, words made of `*`
+    only (doc-comment gutters) dropped -/
 def commentWords (text : String) : List String :=
   let cs := text.toList
-  let cs := dropPrefix ['/', '/'] (dropPrefix ['#'] (dropPrefix ['/', '*'] cs))
-  let cs := if ['/', '*'].isPrefixOf text.toList then (dropPrefix ['/', '*'] cs.reverse).reverse else cs
+  let cs :=
+    if ['/', '*'].isPrefixOf cs then (dropPrefix ['/', '*'] (cs.drop 2).reverse).reverse
+    else if ['#'].isPrefixOf cs then cs.drop 1
+    else dropPrefix ['/', '/'] cs
   ((wordsAux cs [] []).filter (fun w => !(w.all (· == '*')))).map String.ofList
 
 /-- comment sequence of a token stream: kind and text-up-to-layout, in order -/
